@@ -101,6 +101,7 @@ def build_menu(k):
     import a5
     return {
         'lonlat_to_cell_r2': lambda: a5.lonlat_to_cell(k['mid'], 2),
+        'lonlat_to_cell_r6_mid': lambda: a5.lonlat_to_cell(k['mid'], 6),      # a different point of the same face region: different intermediate vectors
         'lonlat_to_cell_r7_edge': lambda: a5.lonlat_to_cell(k['near'], 7),
         'cell_to_lonlat': lambda: a5.cell_to_lonlat(k['c7']),
         'boundary_seg2_edge': lambda: a5.cell_to_boundary(k['cb'], {'segments': 2}),
@@ -118,7 +119,21 @@ def build_menu(k):
         'scalars_b': lambda: (a5.get_num_cells(5), a5.cell_area(11), a5.get_resolution(k['c4']), a5.u64_to_hex(k['c4'])),
         'scalars_c': lambda: (a5.get_num_cells(9), a5.cell_area(3), a5.get_num_cells(2)),
         'uncompact_low': lambda: a5.uncompact([a5.get_res0_cells()[4]], 2),
+        # the curve-index functions are importable and used directly by callers: they are calls into the library too
+        'hilbert_a': lambda: _hilbert_roundtrip((5, 'uw', 777), (9, 'wv', 201033)),
+        'hilbert_b': lambda: _hilbert_roundtrip((5, 'uw', 123), (7, 'vu', 9001)),
     }
+
+
+def _hilbert_roundtrip(*cases):
+    from a5.core import hilbert, tiling
+    from a5.core.coordinate_transforms import face_to_ij
+    out = []
+    for h, o, S in cases:
+        anchor = hilbert.s_to_anchor(S, h, o)
+        c = tiling.get_pentagon_vertices(h, 0, anchor).get_center()
+        out.append(hilbert.ij_to_s(face_to_ij((c[0] * 2 ** h, c[1] * 2 ** h)), h, o))
+    return tuple(out)
 
 
 def probe_values(k):
@@ -130,9 +145,9 @@ def probe_values(k):
 
 
 GEO_A = ['lonlat_to_cell_r7_edge', 'cell_to_lonlat', 'boundary_seg2_edge', 'boundary_auto_r4', 'lonlat_to_cell_r29_centre_a']
-GEO_B = ['lonlat_to_cell_r7_edge', 'cell_to_lonlat', 'boundary_seg2_edge', 'lonlat_to_cell_r29_centre_b']
-INT_A = ['compact', 'uncompact', 'children_parent', 'scalars', 'scalars_b', 'uncompact_low']
-INT_B = ['compact', 'scalars_c', 'uncompact_low']
+GEO_B = ['lonlat_to_cell_r7_edge', 'cell_to_lonlat', 'boundary_seg2_edge', 'lonlat_to_cell_r6_mid', 'lonlat_to_cell_r29_centre_b']
+INT_A = ['compact', 'uncompact', 'children_parent', 'scalars', 'scalars_b', 'uncompact_low', 'hilbert_a']
+INT_B = ['compact', 'scalars_c', 'uncompact_low', 'hilbert_b']
 B_QUICK = GEO_B
 
 
@@ -146,7 +161,7 @@ def quick_pairs():
             out.append((a, 'lonlat_to_cell_r29_centre_b', False))
             out.append((a, 'cell_to_lonlat', False))
             continue
-        for b in ('lonlat_to_cell_r7_edge', 'cell_to_lonlat', 'boundary_seg2_edge'):
+        for b in ('lonlat_to_cell_r7_edge', 'cell_to_lonlat', 'boundary_seg2_edge', 'lonlat_to_cell_r6_mid'):
             out.append((a, b, False))
     for a in ('lonlat_to_cell_r7_edge', 'boundary_seg2_edge'):
         out.append((a, 'scalars_c', False))
